@@ -350,6 +350,27 @@ def runVq2 (ws : List String) : String :=
   | ["backlog", k, n] => match n.toNat? with
     | some n => if n ≤ 100000 then runVqBacklog k n else "bad-case"
     | none => "bad-case"
+  | ["latecancel", r] =>
+    -- a timer of 10 units cancelled at time 9 (one unit before its deadline), then a receive that lasts well
+    -- beyond it: whether the cancel is folded by ready_event or by a wake-up, the timer is never returned
+    match r.toNat? with
+    | some r =>
+      if r = 0 ∨ r > 100000 then "bad-case"
+      else
+        let run (s : St Nat) (acts : List (Act Nat)) : Option (St Nat) := acts.foldlM (fun (s : St Nat) a => step s a) s
+        match run ({} : St Nat) [.sendTimer 10 1, .tick 9] with
+        | some s =>
+          match s.created[0]? with
+          | some c =>
+            let a := run s [.cancel c.key, .call .recvTimeout 12, .readClock, .foldPick, .tick 12, .wake .timeout]
+            let b := run s [.call .recvTimeout 12, .readClock, .foldPick, .cancel c.key, .wake .cmd, .readClock, .foldPick, .tick 12, .wake .timeout]
+            let timers (x : Option (St Nat)) : Nat := match x with
+              | some s' => (s'.returned.filter fun (o : Out Nat × Nat) => (match o.1 with | Out.timer _ _ => true | _ => false)).length
+              | none => 1000
+            s!"delivered={timers a + timers b}"
+          | none => "model: no timer"
+        | none => "model: schedule not enabled"
+    | none => "bad-case"
   | ["deadlinerace", r] =>
     -- a timer (5 units) pending, receive_timeout(6 units), and a receiver that wakes up only at time 9, after
     -- both instants: the timeout is not enabled while the expiry is ready (crossbeam tries the operations
@@ -359,7 +380,7 @@ def runVq2 (ws : List String) : String :=
       if r = 0 ∨ r > 100000 then "bad-case"
       else
         let run (s : St Nat) (acts : List (Act Nat)) : Option (St Nat) := acts.foldlM (fun (s : St Nat) a => step s a) s
-        match run ({} : St Nat) [.sendTimer 1 5, .call .recvTimeout 6, .readClock, .foldPick, .tick 9] with
+        match run ({} : St Nat) [.sendTimer 5 1, .call .recvTimeout 6, .readClock, .foldPick, .tick 9] with
         | some s =>
           let timeoutEnabled := (step s (.wake .timeout)).isSome
           match run s [.wake .timer, .readClock, .foldPick] with
